@@ -89,6 +89,12 @@ func c06Check(c C06Case) (r evid.Result) {
 		if merr != nil {
 			if isUnsupported(merr) {
 				r.Class(true, "model-unsupported: "+trunc(merr.Error()))
+				// What the stage extracts is not modelled here (a pattern over a line of
+				// another shape), but a parser stage still never changes the line.
+				if c.Stage.Kind != "unpack" && e.Line != string(rec.Line) {
+					r.Violation = evid.Viol("C06/line-changed", "%s: line %q, want it unchanged", what, trunc(e.Line))
+					return r
+				}
 				continue
 			}
 			r.Violation = evid.Viol("C06/harness-model-error", "%s: %v", what, merr)
@@ -444,15 +450,17 @@ func c06Gen(t *rapid.T) C06Case {
 			`<app> <level> [<_>] "<rest>`,
 			`<_> <_> [<_>] "<method> <_>" <tail>`,
 		}).Draw(t, "pattern")
-		// A non-matching line is only required to be kept unchanged: keep only lines of
-		// the shape the patterns were written for.
-		var keep []model.Rec
-		for _, r := range c.Recs {
-			if strings.HasSuffix(string(r.Line), " end") {
-				keep = append(keep, r)
+		// A non-matching line is only required to be kept, unchanged: mostly keep only lines
+		// of the shape the patterns were written for (their extraction is modelled).
+		if rapid.IntRange(0, 3).Draw(t, "keep-other-shapes") != 0 {
+			var keep []model.Rec
+			for _, r := range c.Recs {
+				if strings.HasSuffix(string(r.Line), " end") {
+					keep = append(keep, r)
+				}
 			}
+			c.Recs = keep
 		}
-		c.Recs = keep
 	}
 	c.Stage = st
 	c.Text = gen.PrintLog(&gen.LogQuery{Stages: []gen.Stage{st}}, gen.Plain{})
